@@ -77,15 +77,39 @@ func TestVerif_C09(t *testing.T) {
 			return x % 50
 		}
 		h := mocrelay.NewMergeHandler(mkChildren(w, nch)...)
-		cl := newMClient(ctx, h)
-		defer func() { cl.s.Stop(); <-cl.rdDone }()
-
-		// requests
 		nev := 1 + r.IntN(3)
 		events := make([]*mocrelay.Event, nev)
 		for k := range events {
 			events[k] = vk.Seal(&mocrelay.Event{Kind: 1, Pubkey: vk.FakePub(900), CreatedAt: int64(1000 + k), Content: fmt.Sprintf("c09-%d-%d", i, k)})
 		}
+		if i%5 == 0 {
+			// an earlier session on the same handler submits the same ids and the same
+			// COUNT ids and is cut while replies are still outstanding: nothing of it may
+			// show in the session judged below
+			pre := newMClient(ctx, h)
+			for k, n := 0, 1+r.IntN(3); k < n; k++ {
+				if r.IntN(3) == 0 {
+					pre.s.Put(&mocrelay.ClientCountMsg{SubscriptionID: vk.Pick(r, []string{"x", "y"}), ReqFilters: []*mocrelay.ReqFilter{{}}})
+				} else {
+					pre.s.Put(&mocrelay.ClientEventMsg{Event: vk.Pick(r, events)})
+				}
+			}
+			if r.IntN(2) == 0 {
+				time.Sleep(time.Duration(r.IntN(200)) * time.Microsecond)
+			}
+			pre.s.Stop()
+			<-pre.rdDone
+			w.mu.Lock()
+			w.oks, w.counts = nil, nil
+			w.mu.Unlock()
+			for c := 0; c < nch; c++ {
+				w.gotEvents[c].Store(0)
+				w.gotCounts[c].Store(0)
+			}
+			rep.Count("sessions_after_a_cut_session_on_the_same_handler", 1)
+		}
+		cl := newMClient(ctx, h)
+		defer func() { cl.s.Stop(); <-cl.rdDone }()
 		subs := []string{"x", "y"}
 		nreq := 1 + r.IntN(8)
 		sentEv := map[string]int{}
